@@ -113,7 +113,7 @@ class QueryBase(Check):
                 ls = lines + [op]
                 outs = [real.step(l) for l in ls]
                 yield ls, outs, pool.after(op, outs[-1])
-        for _ in range(60 if quick else 2500):
+        for _ in range(180 if quick else 2500):
             lines, outs = gen.random_history(rng, real, all_ops, rng.randint(3, 25), audit=())
             p = gen.Pool()
             for l, o in zip(lines, outs):
@@ -368,7 +368,7 @@ class C05(Check):
                 aud = self.audit(real, p2, rng)
                 outs += [real.step(l) for l in aud]
                 yield sc + warm + [op] + aud, outs
-        for _ in range(300 if quick else 8000):
+        for _ in range(1000 if quick else 8000):
             yield self.history(rng, real, rng.randint(3, 14 if quick else 40))
         # process boundary: pickle with warm caches, load in a fresh interpreter, query with caching on
         for _ in range(4 if quick else 60):
